@@ -37,9 +37,21 @@ Premises(trees) ==
     /\ \A u \in Internal : \E i \in 1..Len(trees) : Present(trees[i], u)
     /\ NeedMissing => \E i \in 1..Len(trees) : TreeT(trees[i]) < NS
 
+(* TSGen!PFnsOK filters all of [Nodes -> Nodes \cup {NULL}] (8^7 functions for 7 nodes);  *)
+(* the same set is built here node by node from the admissible parents of each node.   *)
+AllowedParents(c) == {NULL} \cup { p \in Nodes : Time[p] > Time[c] }
+RECURSIVE FnsUpTo(_)
+FnsUpTo(c) == IF c < 0 THEN { <<>> }
+              ELSE { fn @@ (c :> p) : fn \in FnsUpTo(c - 1), p \in AllowedParents(c) }
+FastPFnsOK == { f \in FnsUpTo(N - 1) : TreeOK(f) }
+ASSUME N <= 5 => FastPFnsOK = PFnsOK
+
+FastGenTree == /\ g.phase = "trees" /\ Len(g.trees) < L
+               /\ \E f \in FastPFnsOK : g' = [g EXCEPT !.trees = Append(@, f)]
+
 Init == GenInit /\ inst = <<>> /\ pc = "choose"
 
-Gen == /\ pc = "choose" /\ (GenTree \/ GenTreesDone)
+Gen == /\ pc = "choose" /\ (FastGenTree \/ GenTreesDone)
        /\ UNCHANGED <<inst, pc>>
 
 Pick == /\ pc = "choose" /\ GenReady /\ Premises(g.trees)
